@@ -88,13 +88,25 @@ pub struct Obs {
 }
 
 pub fn observe(case: &Case, bytes: &[u8]) -> Obs {
+    observe_chunked(case, bytes, 0)
+}
+
+/// `chunk` > 0: the source returns at most that many bytes per read call
+pub fn observe_chunked(case: &Case, bytes: &[u8], chunk: usize) -> Obs {
     let n = case.file.records.len();
-    let read = ShapeReader::new(Dev::quiet(bytes.to_vec()))
+    let dev = |b: Vec<u8>| {
+        let d = Dev::quiet(b);
+        if chunk > 0 {
+            d.set_chunking(crate::dev::Chunking::Uniform(chunk));
+        }
+        d
+    };
+    let read = ShapeReader::new(dev(bytes.to_vec()))
         .and_then(|r| r.read())
         .map(|v| v.iter().map(from_lib).collect())
         .map_err(|e| err_kind(&e));
     let mut header_ty = Err("not opened".to_string());
-    let iter = ShapeReader::new(Dev::quiet(bytes.to_vec())).map_err(|e| err_kind(&e)).and_then(|mut r| {
+    let iter = ShapeReader::new(dev(bytes.to_vec())).map_err(|e| err_kind(&e)).and_then(|mut r| {
         header_ty = Ok(model_ty(r.header().shape_type));
         let mut v = vec![];
         for it in r.iter_shapes() {
@@ -110,7 +122,7 @@ pub fn observe(case: &Case, bytes: &[u8]) -> Obs {
     });
     let all_typed = case.file.ty != Ty::Null && case.file.records.iter().all(|r| !matches!(r.body, MBody::Null));
     let typed = if all_typed {
-        Some(with_ty!(case.file.ty, T => ShapeReader::new(Dev::quiet(bytes.to_vec()))
+        Some(with_ty!(case.file.ty, T => ShapeReader::new(dev(bytes.to_vec()))
             .and_then(|r| r.read_as::<T>())
             .map(|v| v.into_iter().map(|s| from_lib(&Shape::from(s))).collect())
             .map_err(|e| err_kind(&e)), unreachable!()))
@@ -421,6 +433,8 @@ enum UKind {
     Devs { idx: usize, dmax: u8 },
     /// size ladder (large parts / many parts), with and without the M block
     Ladder { idx: usize },
+    /// every part length in [lo, hi), with and without the M block
+    Sizes { lo: usize, hi: usize },
 }
 
 fn run_case(case: &Case, ctx: &mut Ctx) {
@@ -447,6 +461,20 @@ fn run_case(case: &Case, ctx: &mut Ctx) {
     }
     for (sig, d) in judge(case, &obs) {
         ctx.violation(sig, || case.to_json(), || d);
+    }
+    // multi-record files again through sources that return fewer bytes than asked
+    if case.file.records.len() >= 2 && case.ndev == 0 {
+        for chunk in [1usize, 5] {
+            match catch(|| observe_chunked(case, &bytes, chunk)) {
+                Ok(o) => {
+                    ctx.lib_calls += 3;
+                    for (sig, d) in judge(case, &o) {
+                        ctx.violation(format!("short-reads:{}", sig), || case.to_json(), || format!("source returning <= {} bytes per read: {}", chunk, d));
+                    }
+                }
+                Err(p) => ctx.violation(format!("short-reads:{}", p.sig()), || case.to_json(), || p.msg.clone()),
+            }
+        }
     }
 }
 
@@ -480,7 +508,10 @@ fn enumerate(u: &Unit, tier: Tier, ctx: &mut Ctx, tick: &dyn Fn()) {
             }
         }
         UKind::Seqs { n } => {
-            let red = reduced_variants(ty);
+            let mut red = reduced_variants(ty);
+            if *n >= 4 {
+                red.truncate(4);
+            }
             for t in crate::structs::tuples(red.len(), *n) {
                 let bodies: Vec<MBody> = t.iter().map(|i| red[*i].clone()).collect();
                 for nums in number_variants(*n) {
@@ -489,6 +520,17 @@ fn enumerate(u: &Unit, tier: Tier, ctx: &mut Ctx, tick: &dyn Fn()) {
                         tick();
                     }
                 }
+            }
+        }
+        UKind::Sizes { lo, hi } => {
+            for n in *lo..*hi {
+                let s = crate::structs::sized(ty, n);
+                for with_m in m_variants(ty) {
+                    let bbox = codec::true_bbox(&s);
+                    let body = MBody::Shape { shape: s.clone(), bbox, with_m };
+                    run_case(&Case { file: file_of(ty, vec![body.clone(), MBody::Null], &[1, 2], vec![0xAB; 13]), ndev: 0 }, ctx);
+                }
+                tick();
             }
         }
         UKind::Ladder { idx } => {
@@ -631,8 +673,18 @@ pub fn check(tier: Tier) -> i32 {
         }
         units.push(Unit { ty, kind: UKind::Seqs { n: 2 } });
         units.push(Unit { ty, kind: UKind::Seqs { n: 3 } });
+        units.push(Unit { ty, kind: UKind::Seqs { n: 4 } });
         for idx in 0..crate::structs::ladder(ty).len() {
             units.push(Unit { ty, kind: UKind::Ladder { idx } });
+        }
+        if matches!(ty, Ty::Multipoint | Ty::PolylineZ | Ty::PolygonM | Ty::Multipatch) {
+            let max = tier.pick(4200usize, 9000);
+            let mut lo = 2;
+            while lo < max {
+                let hi = (lo + (60000 / lo).clamp(8, 400)).min(max);
+                units.push(Unit { ty, kind: UKind::Sizes { lo, hi } });
+                lo = hi;
+            }
         }
         for idx in 1..reduced_variants(ty).len() {
             units.push(Unit { ty, kind: UKind::Devs { idx, dmax: 1 } });
@@ -651,8 +703,8 @@ pub fn check(tier: Tier) -> i32 {
             tier,
             level: "model_checking",
             engine: "E2 enumerator over files produced by the independent RefCodec encoder, decoded by the real ShapeReader (read, iter_shapes, read_as)",
-            rule: "14 file types x {n=0; n=1 over every record variant (part structures with 0-3 parts of 0-3 vertices incl. empty first parts and zero parts, M block present/absent, PointZ 24/32 bytes, 4 stored-box variants, null record) x 5 numbering variants x 4 trailing variants; n=2,3 all ordered tuples over 6 representative variants x numbering x trailing; deviation sets of size <= d over every coordinate and stored-box field from the full float alphabet (NaNs included)}; distinct = hash of the file bytes; non-trivial = foreign layout feature, deviation or >= 2 records",
-            bounds: json!({"max_parts": 3, "max_part_len": 3, "max_records": 3, "deviation_bound": tier.pick(1, 2), "alphabet": f_m().len()}),
+            rule: "14 file types x {n=0; n=1 over every record variant (part structures with 0-3 parts of 0-3 vertices incl. empty first parts and zero parts, M block present/absent, PointZ 24/32 bytes, 4 stored-box variants, null record) x 5 numbering variants x 4 trailing variants; n=2,3 all ordered tuples over 6 representative variants x numbering x trailing; deviation sets of size <= d over every coordinate and stored-box field from the full float alphabet (NaNs included); EVERY part length from 2 to the size bound for one type per family (with and without the M block); every file of >= 2 records again through sources returning at most 1 resp. 5 bytes per read}; distinct = hash of the file bytes; non-trivial = foreign layout feature, deviation or >= 2 records",
+            bounds: json!({"max_parts": 3, "max_part_len": 3, "max_records": 4, "deviation_bound": tier.pick(1, 2), "alphabet": f_m().len()}),
             exhaustive: true,
             assumptions: vec!["ring roles and the M range of a box whose M block is absent are not in the statement and are not compared".into()],
             started,
